@@ -459,6 +459,10 @@ void runPlan(const Plan &plan, pbt::Case &c)
     t->onError([ctx, sentinel](TransportError, const std::string &) { (void)sentinel; (void)ctx; });
   }
 
+  // UDP: the raw peer sockets of accepted sessions live for the whole CASE, so after a
+  // stop()/start() the same remote ip:port talks to the restarted engine again (the peer key
+  // of a UDP "session" is the remote address - state kept across the restart would be hit)
+  std::vector<int> carriedUdp;
   std::uint64_t digest = plan.udp ? 11 : 5;
   bool anyNontrivial = false;
   bool destroyed = false;
@@ -490,10 +494,16 @@ void runPlan(const Plan &plan, pbt::Case &c)
     // ---- sessions -------------------------------------------------------------
     std::vector<SessionInfo> sessions;
     std::vector<int> cycleFds;
+    {
+      // announcements of earlier cycles must not pair with this cycle's peers
+      std::lock_guard<std::mutex> lk(ctx->accMu);
+      ctx->accepts.clear();
+    }
     for (int i = 0; i < cy.nAccepted && inconclusive.empty(); ++i)
     {
       SessionInfo si;
       std::uint16_t myPort = 0;
+      bool carried = false;
       if (!plan.udp)
       {
         si.rawFd = c02raw::tcpConnect(ioraPort, 10000);
@@ -501,7 +511,19 @@ void runPlan(const Plan &plan, pbt::Case &c)
       }
       else
       {
-        si.rawFd = c02raw::udpBind(myPort);
+        if (static_cast<std::size_t>(i) < carriedUdp.size())
+        {
+          // the SAME socket (same source port) that talked to the previous run
+          si.rawFd = carriedUdp[static_cast<std::size_t>(i)];
+          myPort = c02raw::localPort(si.rawFd);
+          carried = true;
+          if (ci > 0) c.label("udp peer socket reused across restart");
+        }
+        else
+        {
+          si.rawFd = bag.add(c02raw::udpBind(myPort));
+          if (si.rawFd >= 0) carriedUdp.push_back(si.rawFd);
+        }
         if (si.rawFd >= 0) c02raw::udpSendTo(si.rawFd, ioraPort, "hi", 2);
         si.ioraPort = ioraPort;
       }
@@ -510,7 +532,8 @@ void runPlan(const Plan &plan, pbt::Case &c)
         inconclusive = "raw peer could not connect";
         break;
       }
-      cycleFds.push_back(si.rawFd);
+      (void)carried;
+      if (!plan.udp) cycleFds.push_back(si.rawFd); // UDP peers are closed with the case (bag)
       std::unique_lock<std::mutex> lk(ctx->accMu);
       bool ok = ctx->accCv.wait_for(lk, std::chrono::seconds(15),
                                     [&]
@@ -530,6 +553,10 @@ void runPlan(const Plan &plan, pbt::Case &c)
       }
       sessions.push_back(si);
     }
+    // carried peers beyond this cycle's session count still say hello to the new run
+    if (plan.udp)
+      for (std::size_t j = static_cast<std::size_t>(cy.nAccepted); j < carriedUdp.size(); ++j)
+        c02raw::udpSendTo(carriedUdp[j], ioraPort, "hi again", 8);
     for (int i = 0; i < cy.nConnected && inconclusive.empty(); ++i)
     {
       SessionInfo si;
@@ -1154,6 +1181,28 @@ PBT_REGRESSION(restart_fd_reuse_tcp)
     cy.tdDelayUs = 3000;
     ActorPlan a;
     a.ops = {{StatsOp, 0, 0, 100}, {SendOp, 0, 1, 100}};
+    cy.actors = {a};
+    p.cycles.push_back(cy);
+  }
+  runPlan(p, c);
+}
+// Restart with the SAME UDP peers: accepted sessions still open at stop(), start() again, new
+// listener, the same raw sockets (same remote ip:port) send again. Any per-peer state the
+// engine kept across the stop (e.g. _peerIndex entries) would resolve to a dead session id.
+PBT_REGRESSION(restart_same_udp_peers)
+{
+  Plan p;
+  p.udp = true;
+  for (int i = 0; i < 3; ++i)
+  {
+    CyclePlan cy;
+    cy.nAccepted = 2;
+    cy.nConnected = i == 1 ? 1 : 0;
+    cy.writerMask = 3;
+    cy.tdKind = StopOutside;
+    cy.tdDelayUs = 3000;
+    ActorPlan a;
+    a.ops = {{StatsOp, 0, 0, 100}, {SendOp, 0, 1, 100}, {AddrOp, 0, 0, 50}};
     cy.actors = {a};
     p.cycles.push_back(cy);
   }
